@@ -244,6 +244,17 @@ where
     F: Fn() -> S + Sync,
     C: Fn(&T) -> Outcome + Sync,
 {
+    pt_run_opts(ctx, label, cases, 4000, strat, check, rep)
+}
+
+/// `shrink_iters` bounds the shrinking effort (expensive cases: keep it small)
+pub fn pt_run_opts<T, S, F, C>(ctx: &Ctx, label: &str, cases: u64, shrink_iters: u32, strat: F, check: C, rep: &mut Report)
+where
+    T: Debug + Clone + Serialize + Send,
+    S: Strategy<Value = T>,
+    F: Fn() -> S + Sync,
+    C: Fn(&T) -> Outcome + Sync,
+{
     let shards = ctx.threads.max(1).min(cases.max(1) as usize);
     let per = (cases + shards as u64 - 1) / shards as u64;
     let reports: Mutex<Vec<Report>> = Mutex::new(Vec::new());
@@ -259,7 +270,7 @@ where
                     cases: per as u32,
                     rng_seed: RngSeed::Fixed(seed),
                     failure_persistence: None,
-                    max_shrink_iters: 4000,
+                    max_shrink_iters: shrink_iters,
                     max_global_rejects: 1 << 20,
                     ..Config::default()
                 };
